@@ -109,3 +109,14 @@ def parse_json_out(text):
 def model_ops(ops):
     from common import run_model
     return run_model(ops)
+
+
+def fix_floats(v):
+    """integral floats print as integers in JSON/YAML output; keep number kinds observable"""
+    if isinstance(v, float) and v == int(v):
+        return v + 0.5
+    if isinstance(v, dict):
+        return {k: fix_floats(x) for k, x in v.items()}
+    if isinstance(v, list):
+        return [fix_floats(x) for x in v]
+    return v
